@@ -1365,12 +1365,13 @@ class QueryBuilder(Selectable, Term):  # type:ignore[misc]
         for field in fields:
             if isinstance(field, int) and not isinstance(field, bool):
                 field = _column_position(field)
-            field = (
-                # a name is a column of the statement's own table: the updated one, or the first FROM item
-                Field(field, table=self._update_table or self._from[0])
-                if isinstance(field, str)
-                else self.wrap_constant(field)
-            )
+            if isinstance(field, str):
+                # a name is a column of the statement's own table (the updated one, or the first FROM item) -
+                # or the alias of a select item, which is only known when the statement is rendered
+                field = Field(field, table=self._update_table or self._from[0])
+                field._given_by_name = True
+            else:
+                field = self.wrap_constant(field)
 
             self._orderbys.append((field, kwargs.get("order")))
 
@@ -2003,6 +2004,14 @@ class QueryBuilder(Selectable, Term):  # type:ignore[misc]
         for field, directionality in self._orderbys:
             if ctx.orderby_alias and field.alias and field.alias in selected_aliases:
                 term = format_identifier(field.alias, ctx.alias_quote_char or ctx.quote_char)
+            elif (
+                isinstance(field, Field)
+                and not field.alias
+                and field.name in selected_aliases
+                and getattr(field, "_given_by_name", False)
+            ):
+                # orderby("n") where a select item is called n: the name is that item's
+                term = format_identifier(field.name, ctx.alias_quote_char or ctx.quote_char)
             elif (
                 isinstance(field, Field)
                 and not field.alias
